@@ -97,7 +97,7 @@ def main():
         if k in results:
             accepted.append(k)
             for f in results[k]:
-                sig = "C17-wrong-result" if "returned" in f else ("C17-wrong-method-or-args" if "implementor saw" in f else "C17-request-name")
+                sig = "C17-wrong-result" if "returned" in f else ("C17-wrong-method-or-args" if "implementor saw" in f else ("C17-context-deadline" if "carried a deadline" in f or "no deadline noted" in f else "C17-request-name"))
                 failures.append((sig, f"definition {k} {d['dims']}: {f}"))
         elif k in rejected_defs:
             pass
